@@ -104,7 +104,7 @@ inductive Ev
   | rejected (id t : Nat)           -- Execute returned `blocked` at once: no slot
   | pop (id : Nat)                  -- loop dequeued id
   | qtry (id : Nat) (ok : Bool)     -- quota Inc;Allowed for id answered ok
-  | repush (id : Nat)               -- loop enqueued id again
+  | repush (id : Nat) (t : Nat)     -- loop enqueued id again (end of a refused attempt, instant t)
   | done (id : Nat) (ok : Bool) (t : Nat)  -- waiter signalled: ok = success, else timeout
   | ret (id : Nat) (allowed : Bool) -- Execute returned allowed / blocked
   | checked (id : Nat)              -- slot test passed (observable only through the gate after it)
@@ -217,7 +217,7 @@ def stepLoop (cfg : Cfg) (s : St) (k : Nat) : St :=
     let (q', ok) := quotaTry cfg s.q s.now
     (({ s with q := q', loop := if ok then .granted i else .refused i }).upd i
         fun r => { r with qok := ok }).emit (.qtry i ok)
-  | .refused i => ({ (s.enq i) with loop := .repushed i }).emit (.repush i)
+  | .refused i => ({ (s.enq i) with loop := .repushed i }).emit (.repush i s.now)
   | .repushed i =>
     { (s.upd i fun r => { r with st := .enqueued }) with loop := .idle }
   | .granted i => { (s.signal i .success) with loop := .running }
@@ -344,7 +344,8 @@ inductive Op
   | drain                      -- cancel the context; the loop's timer fires; StopAll
   | idle                       -- no time passes on the mock clock; the TTL watcher runs
   | tickHold                   -- like tick, but the loop stops at the gate before a re-push (if it gets there)
-  | tickRelease                -- ... released: re-push, StopProcessing, end of pass
+  | tickRelease                -- ... released: re-push, StopProcessing, end of pass; then the TTL watcher runs
+  | advance (ms : Nat)         -- the mock clock moves while the loop stands at the gate (no loop timer pending)
 deriving DecidableEq, Repr
 
 structure Sim where
@@ -386,7 +387,10 @@ def opActs (cfg : Cfg) (x : Sim) : Op → List Act
   | .idle => .wScan :: repeatActs (.wStep 0 :: settleActs x.hold x.s.n) (2 * x.s.n + 2)
   | .tickHold =>
     tickPrefix x ++ loopUntilGate cfg x.hold (6 * (x.s.heap.length + 1) + 2) (run cfg x.s (tickPrefix x))
-  | .tickRelease => repeatActs (.loopStep 0 :: settleActs x.hold x.s.n) 3
+  | .tickRelease =>
+    repeatActs (.loopStep 0 :: settleActs x.hold x.s.n) 3 ++
+    .wScan :: repeatActs (.wStep 0 :: settleActs x.hold x.s.n) (2 * x.s.n + 2)
+  | .advance ms => [.advance ms]
 
 def applyOp (cfg : Cfg) (x : Sim) (op : Op) : Sim :=
   let s' := run cfg x.s (opActs cfg x op)
@@ -403,5 +407,29 @@ def schedule (cfg : Cfg) : Sim → List Op → List Act
   | x, op :: rest => opActs cfg x op ++ schedule cfg (applyOp cfg x op) rest
 
 def runOps (cfg : Cfg) (x : Sim) (ops : List Op) : Sim := ops.foldl (applyOp cfg) x
+
+/-! ### The shared queue alone (`memoryQueue`), driven directly by the harness (level L1) -/
+
+/-- `memoryQueue`: the heap (as a list: `pop` = minimum for (score, timestamp)) and the
+`firstEnqueuedAt` memo. -/
+structure QSt where
+  heap  : List HItem := []
+  first : List (Nat × Nat) := []
+  seq   : Nat := 0
+
+def QSt.enq (q : QSt) (id prio : Nat) : QSt :=
+  match q.first.lookup id with
+  | some t => { q with heap := ⟨id, prio, t⟩ :: q.heap, seq := q.seq + 1 }
+  | none => { heap := ⟨id, prio, q.seq⟩ :: q.heap, first := (id, q.seq) :: q.first, seq := q.seq + 1 }
+
+/-- `DequeueIfValueRelevant`. -/
+def QSt.deq (q : QSt) : QSt × Option Nat :=
+  match minItem q.heap with
+  | none => (q, none)
+  | some m => ({ q with heap := q.heap.erase m }, some m.id)
+
+/-- `Remove`: the first entry with that value, and the memo. -/
+def QSt.rm (q : QSt) (id : Nat) : QSt :=
+  { q with heap := q.heap.eraseP (fun h => h.id == id), first := q.first.filter fun e => e.1 != id }
 
 end LunarVerif.C06
